@@ -66,11 +66,40 @@ package dtls
 
 //@ func Conn.prepareLegacyPacket
 //@ watch CipherSuite.Decrypt local.markPacketAsValid Conn.legacyReplayMarker
-//@ requires args: wfConn(c)
+//@ requires args: wfConn(c) && detectorsOK(c)
 //@ ensures no-commit-during-prepare: !called("local.markPacketAsValid")
 //@ ensures protected-authenticated: result1 && result0.header.Epoch != 0 ==> called("CipherSuite.Decrypt") && retErr("CipherSuite.Decrypt", 1) == nil
 //@ ensures replay-checked: result1 ==> called("Conn.legacyReplayMarker") && retBool("Conn.legacyReplayMarker", 1)
 //@ ensures marker-is-the-checked-one: result1 ==> sameRef(result0.markPacketAsValid, retAs("Conn.legacyReplayMarker", 0, result0.markPacketAsValid))
 //@ ensures check-before-decrypt: called("CipherSuite.Decrypt") ==> calledBefore("Conn.legacyReplayMarker", "CipherSuite.Decrypt")
 //@ ensures header-nonnil: result1 ==> result0.header != nil
+//@ end
+
+// C06: the replay detector of epoch e is ReplayDetector[e], created on first use with the configured
+// window and the 48-bit sequence space; each record is checked exactly once against the detector of
+// its own epoch with its own sequence number, and the returned closure is the detector's accept.
+//@ define CS(c) dtlsstate.CommonState(c.state)
+//@ define RD(c) dtlsstate.CommonState(c.state).ReplayDetector
+//@ define detectorsOK(c) forall(0, len(RD(c)), func(e int) bool { return RD(c)[e] != nil })
+
+//@ func Conn.legacyReplayMarker
+//@ watch replaydetector.New ReplayDetector.Check
+//@ requires args: wfConn(c) && header != nil && detectorsOK(c)
+//@ ensures check-once: ncalls("ReplayDetector.Check") == 1
+//@ ensures checked-own-number: argU64("ReplayDetector.Check", 1) == old(header.SequenceNumber)
+//@ ensures result-is-check: result1 == retBool("ReplayDetector.Check", 1)
+//@ ensures marker-is-accept: result1 ==> sameRef(result0, retAs("ReplayDetector.Check", 0, result0))
+//@ ensures detector-of-epoch: int(old(header.Epoch)) < len(RD(c)) && sameRef(argAs("ReplayDetector.Check", 0, RD(c)[0]), RD(c)[int(old(header.Epoch))])
+//@ ensures window-from-config: called("replaydetector.New") ==> argAs("replaydetector.New", 0, c.replayProtectionWindow) == c.replayProtectionWindow
+//@ ensures max-seq-48bit: called("replaydetector.New") ==> argU64("replaydetector.New", 1) == 0x0000FFFFFFFFFFFF
+//@ ensures existing-kept: forall(0, len(old(RD(c))), func(e int) bool { return sameRef(RD(c)[e], old(RD(c)[e])) })
+//@ ensures detectors-ok: detectorsOK(c)
+//@ ensures wf-kept: wfConn(c)
+//@ loop #1: wf-kept: wfConn(c)
+//@ loop #1: same-common: common == CS(c) && common != nil
+//@ loop #1: grows: len(common.ReplayDetector) >= len(old(RD(c)))
+//@ loop #1: existing-kept: forall(0, len(old(RD(c))), func(e int) bool { return sameRef(common.ReplayDetector[e], old(RD(c)[e])) })
+//@ loop #1: all-nonnil: forall(0, len(common.ReplayDetector), func(e int) bool { return common.ReplayDetector[e] != nil })
+//@ loop #1: window-from-config: called("replaydetector.New") ==> argAs("replaydetector.New", 0, c.replayProtectionWindow) == c.replayProtectionWindow && argU64("replaydetector.New", 1) == 0x0000FFFFFFFFFFFF
+//@ loop #1: not-checked-yet: !called("ReplayDetector.Check")
 //@ end
